@@ -521,6 +521,20 @@ func scenario(c *run.Ctx, idx int, edge bool) {
 				e.attack(head, at, types.Transactions{v}, "replay:"+name+":"+age)
 			}
 		}
+		// a fresh transaction that expires more than the maximum lifetime after the block's time, on its own and inside
+		// a box whose own expiration is within the lifetime
+		if !edge && r.Chance(1, 3) {
+			seq++
+			at := head.Time() + uint32(r.Intn(30))
+			d := []int{1, 60, 300, 600}[r.Intn(4)]
+			far := B.Transfer(w.Users[r.Intn(5)], w.Users[2].Addr, fx.LEMO(int64(seq)), uint64(at)+uint64(params.MaxTxLifeTime)+uint64(d))
+			if r.Chance(1, 2) {
+				e.attack(head, at, types.Transactions{far}, "fresh-tx-beyond-lifetime:standalone")
+			} else {
+				bx := B.Box(w.Users[0], types.Transactions{far}, uint64(at)+600)
+				e.attack(head, at, types.Transactions{bx}, "fresh-tx-beyond-lifetime:in-box-expiring-earlier")
+			}
+		}
 		// a transaction executed only on an abandoned fork may be executed once on the main fork
 		if !edge && r.Chance(1, 6) && len(chain) >= 2 {
 			par := chain[len(chain)-2]
